@@ -507,7 +507,7 @@ def cid(name):
 
 PASSTHRU = ('__CPROVER_', 'nondet_', 'vf_')
 LIBC_BUILTIN = {'malloc', 'free', 'calloc', 'realloc', 'memcpy', 'memmove', 'memset', 'memcmp', 'strlen',
-                'abort', 'exit', 'strdup', 'strcmp', 'strncmp', 'memchr', 'strchr', 'isspace', 'bcmp'}
+                'abort', 'exit', 'strdup', 'strncpy', 'strcpy', 'strcat', 'strncat', 'strrchr', 'strstr', 'strnlen', 'strtol', 'strtoul', 'strtoull', 'atoi', 'tolower', 'toupper', 'isdigit', 'isalpha', 'isalnum', 'strcmp', 'strncmp', 'memchr', 'strchr', 'isspace', 'bcmp'}
 
 class Emitter:
     def __init__(self, m, opts):
@@ -1336,9 +1336,15 @@ class Emitter:
             v0 = args[0][1]
             if args[2][1][0] == 'int' and args[1][1] == ('int', 0) and v0[0] == 'local' and v0[1] in self.i8src:
                 n = args[2][1][1]; T = self.i8src[v0[1]]; src = self.i8srcname[v0[1]]
+                onepast = False
+                if src in self.gepdef:
+                    _bt, _p, _idx = self.gepdef[src]
+                    if _idx and _idx[0][1][0] == 'int' and _idx[0][1][1] != 0: onepast = True   # pointer stepped past an object: T does not describe what is there
                 try:
                     o2 = []
                     szT = self.sizeof(T)
+                    if onepast:
+                        raise NotImplementedError('one-past pointer')
                     if n <= szT:
                         self.zero_range('(*%s)' % self.lname(src), T, 0, n, o2)
                         return o2 or ['/* memset 0 bytes */;']
@@ -1355,6 +1361,8 @@ class Emitter:
                                     return o2
                 except NotImplementedError:
                     pass
+            if args[2][1][0] == 'int' and args[1][1] == ('int', 0) and args[2][1][1] % 8 == 0 and 0 < args[2][1][1] <= 128:
+                return ['((uint64_t*)%s)[%d] = 0;' % (A[0], k) for k in range(args[2][1][1] // 8)]
             return ['if (%s) memset(%s, %s, %s);' % (A[2], A[0], A[1], A[2])]
         if name.startswith('llvm.expect.'):
             setd(rty, A[0]); return out
